@@ -14,6 +14,23 @@
      WidthOK            reported rankwidth / score = max / sum of squares of the cut ranks recomputed
                         from scratch by the spec (F2 elimination RTRank) = the code's own recomputation
      AnnealValid, AnnealNoWorse   result valid, TrueWidth(result) <= TrueWidth(start)
+   Direct calls with caller-chosen arguments, queries, hand-built trees, set_init_decomp, rank_decomp, hash backend
+   (harness option --api, audit #16); every event carries the FULL node array and cache after the call:
+     swapd   : path(c1, c2), clear_rank on its edges, swap_subtrees((p1, c1), (p2, c2)) for any two disjoint subtrees.
+               `pre` = array before.  If the arguments are valid on a valid `pre` (RankTree!SwapArgsValid): PathIsTreePath,
+               ValidTree, CacheCoherent after.  (stats.bad_args counts calls whose arguments were not valid: not judged)
+     moved   : move_subtree(path(a, b)), cache emptied entirely or selectively (clear_rank, either key order): as above
+     setrank : set_rank / clear_rank / rank with both spellings of the key: RankKeyOrder (both spellings read the value
+               set; after set-then-clear through the other spelling both read nothing), CacheCoherent after
+     compute : compute_ranks alone: CacheCoherent and ComputeFills (Width / Score of the cache = TrueWidth / TrueScore)
+     query   : PartitionOK for every tree edge in both orientations, PathIsTreePath, EdgesOK (edges(), num_edges())
+     sort    : sort_nhds: SortKeepsTree, ValidTree, CacheCoherent
+     begin how = api_hand : a tree built with new / add_leaf / add_interior: ValidTree as for every begin
+     anneal ctor = set_init_decomp : AnnealNoWorse is judged against the tree the caller INSTALLED (init_nodes)
+     rank_decomp : the top-level entry point: AnnealValid, CacheCoherent, WidthOK
+   L1 additions: SwapRefines / MoveRefines (the post-state is the transcription's), ComputeRefines, SetRankRefines,
+   SortRefines, HandBuilt (the array is CaterpillarPerm and every returned index was the next free one), ParamReadback
+   (the getters return what the setters stored; init_decomp() is the installed tree).
    L1 (drift only): the logged post-state is one of the results of the transcribed move for some
    choice of its random arguments; the cache after a width query is ComputeRanks of the one before;
    is_valid_for_graph agrees with ValidTree; the index lists leaves/interior agree with the array. *)
@@ -22,7 +39,8 @@ VARIABLES l, gr, nodes, ranks, live, viol, drift, stats
 vars == <<l, gr, nodes, ranks, live, viol, drift, stats>>
 Init == l = 1 /\ gr = [n |-> 0, adj |-> {}] /\ nodes = <<>> /\ ranks = <<>> /\ live = FALSE
         /\ viol = <<>> /\ drift = <<>>
-        /\ stats = [groups |-> 0, moves |-> 0, widths |-> 0, anneals |-> 0, panics |-> 0, nontrivial |-> 0]
+        /\ stats = [groups |-> 0, moves |-> 0, widths |-> 0, anneals |-> 0, panics |-> 0, nontrivial |-> 0,
+                    direct |-> 0, bad_args |-> 0, queries |-> 0, hand_built |-> 0, hash_groups |-> 0, set_init |-> 0, rank_decomp |-> 0]
 Check1(okk, name) == IF okk THEN <<>> ELSE <<<<l, name>>>>
 GraphOf(e) == [n |-> e.n, adj |-> {<<e.adj[i][1], e.adj[i][2]>> : i \in 1..Len(e.adj)}]
 CacheOf(c) ==
@@ -43,8 +61,12 @@ Step(e) ==
             /\ viol' = IF e.res # "ok" THEN Append(viol, <<l, "NoPanic">>) ELSE StateChecks(g, e.nodes, rk) \o viol
             /\ drift' = IF e.res = "ok" /\ ~(SeqSet(e.leaves) = RTLeaves(e.nodes) /\ SeqSet(e.interior) = RTInts(e.nodes)
                                              /\ Len(e.leaves) + Len(e.interior) = Len(e.nodes))
-                        THEN Append(drift, <<l, "IndexLists">>) ELSE drift
-            /\ stats' = [stats EXCEPT !.groups = @ + 1, !.panics = @ + (IF e.res = "ok" THEN 0 ELSE 1)]
+                        THEN Append(drift, <<l, "IndexLists">>)
+                        ELSE IF e.res = "ok" /\ e.how = "api_hand" /\ ~(e.idx_ok /\ e.nodes = CaterpillarPerm(e.perm))
+                        THEN Append(drift, <<l, "HandBuilt">>) ELSE drift
+            /\ stats' = [stats EXCEPT !.groups = @ + 1, !.panics = @ + (IF e.res = "ok" THEN 0 ELSE 1),
+                                      !.hand_built = @ + (IF e.how = "api_hand" THEN 1 ELSE 0),
+                                      !.hash_groups = @ + (IF Has(e, "be") /\ e.be = "hash" THEN 1 ELSE 0)]
     [] e.k = "move" ->
          IF e.res = "timeout" THEN
             /\ viol' = Append(viol, <<l, "NoHang">>) /\ live' = FALSE
@@ -99,10 +121,66 @@ Step(e) ==
                                                 /\ e.init_width = TrueWidth(gr, e.init_nodes), "WidthOK")
                            ELSE <<>>)
                        \o viol
-            /\ drift' = (IF live /\ e.init_nodes # nodes THEN <<<<l, "AnnealStartsFromTree">>>> ELSE <<>>)
+            /\ drift' = (IF live /\ e.params.ctor # "set_init_decomp" /\ e.init_nodes # nodes THEN <<<<l, "AnnealStartsFromTree">>>> ELSE <<>>)
                         \o (IF e.valid # ValidTree(gr, e.nodes) THEN <<<<l, "IsValidForGraph">>>> ELSE <<>>)
+                        \o (IF Has(e, "get") /\ ~(e.init_readback_same /\ e.get = [f \in DOMAIN e.get |-> e.params[f]])
+                            THEN <<<<l, "ParamReadback">>>> ELSE <<>>)
                         \o drift
-            /\ stats' = [stats EXCEPT !.anneals = @ + 1, !.nontrivial = @ + (IF e.params.iters > 0 THEN 1 ELSE 0)]
+            /\ stats' = [stats EXCEPT !.anneals = @ + 1, !.nontrivial = @ + (IF e.params.iters > 0 THEN 1 ELSE 0),
+                                      !.set_init = @ + (IF e.params.ctor = "set_init_decomp" THEN 1 ELSE 0)]
+    [] e.k \in {"swapd", "moved", "setrank", "compute", "query", "sort", "rank_decomp"} ->
+         IF e.res # "ok" THEN
+            /\ viol' = Append(viol, <<l, IF e.res = "panic" THEN "NoPanic" ELSE "NoHang", e.k>>) /\ live' = FALSE
+            /\ stats' = [stats EXCEPT !.direct = @ + 1, !.panics = @ + 1]
+            /\ UNCHANGED <<gr, nodes, ranks, drift>>
+         ELSE
+         LET rk == CacheOf(e.cache)
+             wi == WellIndexed(e.nodes)
+             \* the state before the call, carried by the event (swapd, moved, sort: `pre`; cache: `pre_cache`)
+             pre == IF Has(e, "pre") THEN e.pre ELSE nodes
+             prk == IF Has(e, "pre_cache") THEN CacheOf(e.pre_cache) ELSE ranks
+             preOK == ValidTree(gr, pre)
+             argsOK == CASE e.k = "swapd" -> preOK /\ SwapArgsValid(pre, e.args[1], e.args[2], e.args[3], e.args[4])
+                         [] e.k = "moved" -> preOK /\ MoveArgsValid(pre, e.path)
+                         [] OTHER -> TRUE
+             specific ==
+               CASE e.k = "swapd" -> Check1(IsTreePath(pre, e.path, e.args[2], e.args[4]), "PathIsTreePath")
+                 [] e.k = "moved" -> <<>>
+                 [] e.k = "setrank" ->
+                      Check1(IF e.variant = "set" THEN e.got = <<e.val, e.val>> ELSE e.got = <<-1, -1>>, "RankKeyOrder")
+                 [] e.k = "compute" ->
+                      IF wi THEN Check1(Width(rk) = TrueWidth(gr, e.nodes) /\ Score(rk) = TrueScore(gr, e.nodes), "ComputeFills") ELSE <<>>
+                 [] e.k = "query" ->
+                      IF ~ValidTree(gr, e.nodes) THEN <<>>
+                      ELSE Check1(\A i \in 1..Len(e.parts) : PartitionOK(e.nodes, e.parts[i].e, e.parts[i].p1, e.parts[i].p2), "PartitionOK")
+                           \o Check1(\A i \in 1..Len(e.paths) : IsTreePath(e.nodes, e.paths[i].p, e.paths[i].a, e.paths[i].b), "PathIsTreePath")
+                           \o Check1(EdgesOK(e.nodes, e.edges, e.num_edges) /\ Len(e.parts) = 2 * Len(e.edges), "EdgesOK")
+                 [] e.k = "sort" -> Check1(SortKeepsTree(pre, e.nodes), "SortKeepsTree")
+                 [] e.k = "rank_decomp" ->
+                      IF wi THEN Check1(e.width = TrueWidth(gr, e.nodes) /\ e.score = TrueScore(gr, e.nodes), "WidthOK") ELSE <<>>
+             refines ==
+               CASE e.k = "swapd" -> Check1([nodes |-> e.nodes, ranks |-> rk, panic |-> FALSE]
+                                             = SwapDirect(pre, prk, e.args[1], e.args[2], e.args[3], e.args[4]), "SwapRefines")
+                 [] e.k = "moved" -> Check1([nodes |-> e.nodes, ranks |-> rk, panic |-> FALSE]
+                                             = MoveDirect(pre, prk, e.path, e.clear = "selective") /\ e.path = Path(pre, e.path[1], e.path[Len(e.path)]), "MoveRefines")
+                 [] e.k = "setrank" -> Check1(rk = IF e.variant = "set" THEN (RTNorm(e.edge[1], e.edge[2]) :> e.val) @@ prk
+                                                   ELSE ClearRank(prk, e.edge[1], e.edge[2]), "SetRankRefines")
+                 [] e.k = "compute" -> IF wi THEN Check1(rk = ComputeRanks(gr, e.nodes, prk), "ComputeRefines") ELSE <<>>
+                 [] e.k = "sort" -> Check1(e.nodes = SortNhds(pre), "SortRefines")
+                 [] e.k = "rank_decomp" -> Check1(e.valid = ValidTree(gr, e.nodes), "IsValidForGraph")
+                 [] OTHER -> <<>>
+         IN /\ nodes' = e.nodes /\ ranks' = rk /\ UNCHANGED <<gr, live>>
+            /\ viol' = (IF argsOK THEN (IF e.k = "rank_decomp" THEN Check1(ValidTree(gr, e.nodes), "AnnealValid")
+                                                                   \o (IF wi THEN Check1(CacheCoherent(gr, e.nodes, rk), "CacheCoherent") ELSE <<>>)
+                                        ELSE StateChecks(gr, e.nodes, rk)) \o specific
+                        ELSE <<>>) \o viol
+            /\ drift' = (IF argsOK /\ (e.k \notin {"swapd", "moved"} \/ preOK) THEN refines ELSE <<>>)
+                        \o (IF Has(e, "valid") /\ e.k # "rank_decomp" /\ e.valid # ValidTree(gr, e.nodes) THEN <<<<l, "IsValidForGraph">>>> ELSE <<>>)
+                        \o drift
+            /\ stats' = [stats EXCEPT !.direct = @ + 1, !.bad_args = @ + (IF argsOK THEN 0 ELSE 1),
+                                      !.queries = @ + (IF e.k = "query" THEN Len(e.parts) + Len(e.paths) + 1 ELSE 0),
+                                      !.rank_decomp = @ + (IF e.k = "rank_decomp" THEN 1 ELSE 0),
+                                      !.nontrivial = @ + (IF e.nodes # pre \/ rk # prk THEN 1 ELSE 0)]
 Next == \/ /\ l <= NLines /\ Step(Rec[l]) /\ l' = l + 1
         \/ /\ l = NLines + 1 /\ Report(l, viol, drift, stats) /\ l' = l + 1
            /\ UNCHANGED <<gr, nodes, ranks, live, viol, drift, stats>>
